@@ -896,6 +896,7 @@ def _expand_class(body):
 
 # ---------------------------------------------------------------- R8
 def r8_tables(ctx):
+    K.published_tables_agree(ctx)
     K.duplicate_dict_keys(ctx, ['src/scinumtools/units/settings.py', 'src/scinumtools/units/unit_list.py', 'src/scinumtools/units/unit_types.py'], 'unit, prefix and conversion tables')
     cols, rows = unit_standard(ctx.repo)
     pc, prows = unit_prefixes(ctx.repo)
